@@ -52,6 +52,8 @@ type Contract struct {
 	OnCall   map[string][]*Clause // parameter name -> assertions that must hold whenever it is called
 	AtCall   map[string][]*Clause // callee name (funcKey, or its method name) -> assertions at each call of it
 	AtSend   []*Clause            // assertions at each channel send of the function (sent = the value, ch = the channel)
+	Uses     []string             // templates merged into this contract (`use NAME`)
+	AtMake   []*Clause            // assertions at each make([]T, len, cap) of the function (len, cap bound)
 }
 
 type GhostDecl struct {
@@ -141,8 +143,8 @@ func newContractSet() *ContractSet {
 var clauseKeywords = map[string]bool{
 	"prop": true, "requires": true, "ensures": true, "ensures_panic": true, "modifies": true,
 	"loop": true, "nopanic": true, "maypanic": true, "arith": true, "pure": true, "inline": true,
-	"flag": true, "params": true, "results": true, "let": true, "noinline": true, "havoc": true, "stable": true,
-	"oncall": true, "atcall": true, "atsend": true,
+	"flag": true, "params": true, "results": true, "let": true, "noinline": true, "havoc": true, "stable": true, "use": true,
+	"oncall": true, "atcall": true, "atsend": true, "atmake": true,
 }
 
 var blockKeywords = map[string]bool{
@@ -402,6 +404,15 @@ func (cs *ContractSet) parseFile(path, pkg string, requirePrefix bool) error {
 				}
 				cur.AtCall[f[0]] = append(cur.AtCall[f[0]], c)
 				curClause = c
+			case "atmake":
+				c := &Clause{Kind: "atmake", File: path, Line: ln}
+				if m := labelRe.FindStringSubmatch(rest); m != nil {
+					c.Label = m[1]
+					rest = rest[len(m[0]):]
+				}
+				c.Text = rest
+				cur.AtMake = append(cur.AtMake, c)
+				curClause = c
 			case "atsend":
 				c := &Clause{Kind: "atsend", File: path, Line: ln}
 				if m := labelRe.FindStringSubmatch(rest); m != nil {
@@ -454,6 +465,8 @@ func (cs *ContractSet) parseFile(path, pkg string, requirePrefix bool) error {
 					}
 					cur.Modifies = append(cur.Modifies, m)
 				}
+			case "use":
+				cur.Uses = append(cur.Uses, strings.Fields(rest)...)
 			case "stable":
 				for _, m := range splitTop(rest, ',') {
 					cur.Stable = append(cur.Stable, strings.TrimSpace(m))
@@ -775,4 +788,63 @@ func (c *Contract) clauseName(cl *Clause) string {
 		return cl.Label
 	}
 	return "h" + scriptHash(cl.Text)[:6]
+}
+
+
+// mergeTemplate adds the clauses of template t to contract c (the template's clauses come first;
+// flags and the property list of c win).
+func (c *Contract) mergeTemplate(t *Contract) {
+	c.Requires = append(append([]*Clause{}, t.Requires...), c.Requires...)
+	c.Ensures = append(append([]*Clause{}, t.Ensures...), c.Ensures...)
+	c.EnsPanic = append(append([]*Clause{}, t.EnsPanic...), c.EnsPanic...)
+	c.Modifies = append(append([]string{}, t.Modifies...), c.Modifies...)
+	c.Lets = append(append([]*Clause{}, t.Lets...), c.Lets...)
+	c.Stable = append(append([]string{}, t.Stable...), c.Stable...)
+	c.AtMake = append(append([]*Clause{}, t.AtMake...), c.AtMake...)
+	if len(c.Props) == 0 {
+		c.Props = append(c.Props, t.Props...)
+	}
+	for k, v := range t.Flags {
+		if _, ok := c.Flags[k]; !ok {
+			c.Flags[k] = v
+		}
+	}
+}
+
+// expandTemplates resolves `use NAME` in function contracts and instantiates
+// `funcs REGEXP : template NAME` families for the functions (keys pkg::funcKey) that have no
+// contract of their own.
+func (cs *ContractSet) expandTemplates(funcKeys []string) error {
+	for _, c := range cs.Funcs {
+		for _, u := range c.Uses {
+			t, ok := cs.Templates[u]
+			if !ok {
+				return fmt.Errorf("%s:%d: unknown template %s", c.File, c.Line, u)
+			}
+			c.mergeTemplate(t)
+		}
+		c.Uses = nil
+	}
+	for _, fam := range cs.Families {
+		t, ok := cs.Templates[fam.Template]
+		if !ok {
+			return fmt.Errorf("%s:%d: unknown template %s", fam.File, fam.Line, fam.Template)
+		}
+		for _, k := range funcKeys {
+			if !strings.HasPrefix(k, fam.Pkg+"::") {
+				continue
+			}
+			name := strings.TrimPrefix(k, fam.Pkg+"::")
+			if !fam.Pattern.MatchString(name) {
+				continue
+			}
+			if _, has := cs.Funcs[k]; has {
+				continue
+			}
+			c := &Contract{Kind: "func", Pkg: fam.Pkg, Key: name, Loops: map[int]*LoopSpec{}, Flags: map[string]string{}, File: fam.File, Line: fam.Line}
+			c.mergeTemplate(t)
+			cs.Funcs[k] = c
+		}
+	}
+	return nil
 }
